@@ -30,6 +30,7 @@ func runC06(c *Check) {
 	c06RunAfterClose(c, P, r)
 	c06ClosesPubSub(c, P, r)
 	c06NotBypassed(c, P, r)
+	c02Dispatch(c, P, r.RouterRoles)
 }
 
 func (r *RouterRoles2) waitsOn(fn *ssa.Function, id string) []ssa.CallInstruction {
